@@ -139,6 +139,14 @@ impl<C: Config, Q: Query> Snapshot<C, Q> {
 
             let mut new_tfcs = FxHashSet::default();
 
+            // what this query has seen of its callees, with the callees'
+            // current sets of firewalls
+            let mut observations = self
+                .forward_edge_observation()
+                .await
+                .map(|x| (*x.0).clone())
+                .unwrap_or_default();
+
             for x in forward_edges.iter_all_callees() {
                 let kind = self.engine().get_query_kind(&x).await;
 
@@ -158,6 +166,13 @@ impl<C: Config, Q: Query> Snapshot<C, Q> {
                             .iter()
                             .copied(),
                     );
+
+                    if let Some(observation) = observations.get_mut(&x) {
+                        observation
+                            .seen_transitive_firewall_callees_fingerprint =
+                            callee_info
+                                .transitive_firewall_callees_fingerprint();
+                    }
                 }
             }
 
@@ -165,7 +180,10 @@ impl<C: Config, Q: Query> Snapshot<C, Q> {
 
             self.computing_lock_to_clean_query(
                 cleaned_edges,
-                Some(new_tfc),
+                Some((
+                    new_tfc,
+                    ForwardEdgeObservation(std::sync::Arc::new(observations)),
+                )),
                 caller_information,
                 lock_guard,
             )
